@@ -105,7 +105,7 @@ class World:
         func = vtasks.scripted_args if scn.mode == "args" else vtasks.scripted
         self.task = self.app.task(**opts)(func)
         vtasks.WORLD = self
-        vclock.install(self.clock)
+        vclock.install(self.clock, uuid_seed=1)
         instrument.patch_threading(THREADING_MODULES)
         instrument.patch_sqlite()
         sched.SThread.policy = staticmethod(self._thread_policy)  # type: ignore[assignment]
@@ -248,7 +248,7 @@ class World:
                 except sched.ActorKilled:
                     raise
                 except Exception as ex:
-                    self.rec.ghost("poll_end", runner=rname, ok=False, err=instrument.err_class(ex))
+                    self.rec.emit("poll_end", {"runner": rname}, {"err": instrument.err_class(ex)})
         return run
 
     def _run_inv(self, inv: Any, rctx: Any) -> None:
@@ -447,13 +447,30 @@ def execute(scn: Scenario, policy: Callable[[Scheduler, list[str]], str | None],
 # normalisation for TLC (uniform record shapes; TLC cannot compare a string with a record)
 # ---------------------------------------------------------------------------
 _ARG_DEFAULTS: dict[str, Any] = {"inv": "", "invs": [], "to": "", "runner": "", "n": 0, "val": "",
-                                 "outcome": "", "proc": "", "kind": ""}
+                                 "outcome": "", "proc": "", "kind": "", "sts": []}
+
+
+def _lookup_ckey(keys: dict[str, str], mode: str) -> str:
+    """The concurrency key a lookup asks for, in the scenario's abstract key names."""
+    if mode == "task" or not keys:
+        return "task"
+    try:
+        return "k:" + str(json.loads(keys.get("key", '""')))
+    except Exception:
+        return "k:?"
+
 
 
 def normalize(events: list[dict[str, Any]]) -> list[dict[str, Any]]:
     out = []
+    mode = "disabled"
     for e in events:
         a = dict(_ARG_DEFAULTS)
+        if e["op"] == "config":
+            mode = e["cfg"]["mode"]
+        if e["op"] == "lookup":
+            a["val"] = _lookup_ckey(e["args"].get("keys", {}), mode)
+            a["sts"] = list(e["args"].get("statuses", []))
         for k, v in (e.get("args") or {}).items():
             if k in a:
                 a[k] = v if not isinstance(v, bool) else str(v)
